@@ -283,6 +283,88 @@ class ModuleInfo:
         return "Module(%s)" % self.name
 
 
+def canonicalise(tree: ast.AST) -> ast.AST:
+    """Semantics-preserving normal form of the parsed source, applied before any rule looks at it, so that rules do not depend on
+    two purely presentational choices:
+      * `if not c: B else: A` (two-armed, no elif) is analysed as `if c: A else: B`;  `B if not c else A` as `A if c else B`;
+      * `t = <expr>` immediately followed by `return t`, with no other use of t in the function, is analysed as `return <expr>`.
+    Node positions of the original statements are kept for reports."""
+
+    class IfNorm(ast.NodeTransformer):
+        def visit_If(self, n: ast.If):
+            self.generic_visit(n)
+            if n.orelse and not (len(n.orelse) == 1 and isinstance(n.orelse[0], ast.If)) and isinstance(n.test, ast.UnaryOp) and isinstance(n.test.op, ast.Not):
+                n.test = n.test.operand
+                n.body, n.orelse = n.orelse, n.body
+            return n
+
+        def visit_IfExp(self, n: ast.IfExp):
+            self.generic_visit(n)
+            if isinstance(n.test, ast.UnaryOp) and isinstance(n.test.op, ast.Not):
+                n.test = n.test.operand
+                n.body, n.orelse = n.orelse, n.body
+            return n
+
+    tree = IfNorm().visit(tree)
+
+    def uses(fn: ast.AST, name: str) -> int:
+        return sum(1 for x in ast.walk(fn) if isinstance(x, ast.Name) and x.id == name)
+
+    def pairs_of(fn: ast.AST, name: str) -> int:
+        k = 0
+        for n in ast.walk(fn):
+            for fld in ("body", "orelse", "finalbody"):
+                v = getattr(n, fld, None)
+                if isinstance(v, list):
+                    for a, b in zip(v, v[1:]):
+                        if isinstance(a, ast.Assign) and len(a.targets) == 1 and isinstance(a.targets[0], ast.Name) and a.targets[0].id == name \
+                                and isinstance(b, ast.Return) and isinstance(b.value, ast.Name) and b.value.id == name and not any(isinstance(x, ast.Name) and x.id == name for x in ast.walk(a.value)):
+                            k += 1
+            for h in getattr(n, "handlers", []) or []:
+                for a, b in zip(h.body, h.body[1:]):
+                    if isinstance(a, ast.Assign) and len(a.targets) == 1 and isinstance(a.targets[0], ast.Name) and a.targets[0].id == name \
+                            and isinstance(b, ast.Return) and isinstance(b.value, ast.Name) and b.value.id == name and not any(isinstance(x, ast.Name) and x.id == name for x in ast.walk(a.value)):
+                        k += 1
+        return k
+
+    foldable_cache = {}
+
+    def foldable(fn: ast.AST, name: str) -> bool:
+        key = (id(fn), name)
+        if key not in foldable_cache:
+            foldable_cache[key] = uses(fn, name) == 2 * pairs_of(fn, name) and pairs_of(fn, name) > 0
+        return foldable_cache[key]
+
+    def fold(stmts: list, fn: ast.AST) -> list:
+        out = []
+        i = 0
+        while i < len(stmts):
+            st = stmts[i]
+            nxt = stmts[i + 1] if i + 1 < len(stmts) else None
+            if isinstance(st, ast.Assign) and len(st.targets) == 1 and isinstance(st.targets[0], ast.Name) and isinstance(nxt, ast.Return) \
+                    and isinstance(nxt.value, ast.Name) and nxt.value.id == st.targets[0].id and foldable(fn, st.targets[0].id):
+                r = ast.Return(value=st.value)
+                ast.copy_location(r, st)
+                out.append(r)
+                i += 2
+                continue
+            out.append(st)
+            i += 1
+        return out
+
+    for fn in [n for n in ast.walk(tree) if isinstance(n, (ast.FunctionDef, ast.AsyncFunctionDef))]:
+        for n in ast.walk(fn):
+            if n is not fn and isinstance(n, (ast.FunctionDef, ast.AsyncFunctionDef, ast.ClassDef)):
+                continue
+            for fld in ("body", "orelse", "finalbody"):
+                v = getattr(n, fld, None)
+                if isinstance(v, list) and v and isinstance(v[0], ast.stmt):
+                    setattr(n, fld, fold(v, fn))
+            for h in getattr(n, "handlers", []) or []:
+                h.body = fold(h.body, fn)
+    return tree
+
+
 class ProgramIndex:
     def __init__(self, repo: str, package: str = "gpytorch", exclude: Iterable[str] = ("gpytorch/test",),
                  extra_files: Optional[Dict[str, str]] = None):
@@ -300,7 +382,7 @@ class ProgramIndex:
     def load_source(self, modname: str, source: str, is_pkg: bool = False) -> ModuleInfo:
         """Add an in-memory module (positive-control fragments)."""
         try:
-            tree = ast.parse(source)
+            tree = canonicalise(ast.parse(source))
         except SyntaxError as e:
             raise AnalysisError("cannot parse control fragment %s: %s" % (modname, e))
         mi = ModuleInfo(modname, "<%s>" % modname, "<%s>" % modname, tree, source, is_pkg)
@@ -335,7 +417,7 @@ class ProgramIndex:
         try:
             with warnings.catch_warnings():
                 warnings.simplefilter("ignore")
-                tree = ast.parse(source, filename=path)
+                tree = canonicalise(ast.parse(source, filename=path))
         except SyntaxError as e:
             raise AnalysisError("cannot parse %s: %s" % (path, e))
         mi = ModuleInfo(modname, path, relpath or path, tree, source, is_pkg)
